@@ -5,7 +5,6 @@ mod exec;
 mod simfile;
 
 use exec::{run_tasks, Outcome, Rng};
-use futures::executor::block_on;
 use qcow2_rs::dev::{Qcow2Dev, Qcow2DevParams};
 use qcow2_rs::helpers::Qcow2IoBuf;
 use qcow2_rs::meta::{MappingSource, Qcow2Header};
@@ -17,6 +16,43 @@ use std::path::Path;
 use std::pin::Pin;
 
 type Dev = Qcow2Dev<SimFile>;
+
+static OUT: std::sync::Mutex<String> = std::sync::Mutex::new(String::new());
+static TICK: std::sync::Mutex<Option<(String, usize, std::time::Instant)>> = std::sync::Mutex::new(None);
+
+macro_rules! outln {
+    ($($arg:tt)*) => {{
+        let mut o = OUT.lock().unwrap();
+        writeln!(o, $($arg)*).unwrap();
+        if o.len() > 1 << 20 {
+            print!("{}", o);
+            o.clear();
+        }
+    }};
+}
+
+fn tick(case: &str, op: usize) {
+    *TICK.lock().unwrap() = Some((case.to_string(), op, std::time::Instant::now()));
+}
+
+fn start_watchdog() {
+    let limit_ms: u128 = std::env::var("QH_OP_TIMEOUT_MS").ok().and_then(|s| s.parse().ok()).unwrap_or(8000);
+    std::thread::spawn(move || loop {
+        std::thread::sleep(std::time::Duration::from_millis(50));
+        let t = TICK.lock().unwrap().clone();
+        if let Some((case, op, at)) = t {
+            if at.elapsed().as_millis() > limit_ms {
+                use std::io::Write;
+                let o = OUT.lock().unwrap();
+                print!("{}", o);
+                println!("hang {} {}", case, op);
+                println!("end");
+                std::io::stdout().flush().unwrap();
+                std::process::exit(3);
+            }
+        }
+    });
+}
 
 #[derive(Clone, Debug)]
 enum Op {
@@ -239,6 +275,18 @@ async fn open_dev(files: &[SimFile], p: &Params) -> Result<Dev, String> {
     Ok(dev)
 }
 
+/// run a single future on DetExec (requests complete at once): detects a self-deadlock
+fn run_single<'a, T>(fut: Pin<Box<dyn Future<Output = T> + 'a>>, files: &[SimFile]) -> Result<T, String> {
+    let mut rng = Rng(1);
+    let mut er = run_tasks(vec![fut], files, &mut rng, 0, None, 50_000_000);
+    match er.outcome {
+        Outcome::Finished => Ok(er.results[0].take().unwrap()),
+        Outcome::Deadlock(_) => Err("deadlock".to_string()),
+        Outcome::Budget(_) => Err("budget".to_string()),
+        Outcome::ReplayDiverged(_) => Err("diverged".to_string()),
+    }
+}
+
 fn guard<T, F: FnOnce() -> T>(f: F) -> Result<T, String> {
     match catch_unwind(AssertUnwindSafe(f)) {
         Ok(v) => Ok(v),
@@ -319,7 +367,7 @@ fn main() {
     }
     let batch = std::fs::read_to_string(&args[1]).expect("batch file");
     let outdir = args.get(2).cloned().unwrap_or_else(|| ".".to_string());
-    let mut out = String::new();
+    start_watchdog();
     let mut cur: Option<Case> = None;
     let lines: Vec<&str> = batch.lines().collect();
     let mut li = 0;
@@ -345,14 +393,14 @@ fn main() {
                     opno: 0,
                     dead: false,
                 });
-                writeln!(out, "case {}", t[1]).unwrap();
+                outln!("case {}", t[1]);
             }
             "end" => {
                 if let Some(mut c) = cur.take() {
                     let d = c.dev.take();
                     let _ = guard(|| drop(d));
                 }
-                writeln!(out, "end").unwrap();
+                outln!("end");
             }
             "image" => {
                 let c = cur.as_mut().unwrap();
@@ -373,29 +421,29 @@ fn main() {
                         match r {
                             Ok(Ok(buf)) => {
                                 c.files.push(SimFile::new("top", buf));
-                                writeln!(out, "image ok").unwrap();
+                                outln!("image ok");
                             }
                             Ok(Err(e)) => {
                                 c.dead = true;
-                                writeln!(out, "image err {}", sanitize(&format!("{}", e))).unwrap();
+                                outln!("image err {}", sanitize(&format!("{}", e)));
                             }
                             Err(p) => {
                                 c.dead = true;
-                                writeln!(out, "image panic {}", p).unwrap();
+                                outln!("image panic {}", p);
                             }
                         }
                     }
                     "file" => {
                         let data = std::fs::read(t[2]).expect("image file");
                         c.files.push(SimFile::new(t[2], data));
-                        writeln!(out, "image ok").unwrap();
+                        outln!("image ok");
                     }
                     "hex" => {
                         let data: Vec<u8> = (0..t[2].len() / 2)
                             .map(|i| u8::from_str_radix(&t[2][2 * i..2 * i + 2], 16).unwrap())
                             .collect();
                         c.files.push(SimFile::new("hex", data));
-                        writeln!(out, "image ok").unwrap();
+                        outln!("image ok");
                     }
                     _ => panic!("bad image line"),
                 }
@@ -429,7 +477,7 @@ fn main() {
                 // open [params...]
                 let c = cur.as_mut().unwrap();
                 if c.dead {
-                    writeln!(out, "open skipped").unwrap();
+                    outln!("open skipped");
                     continue;
                 }
                 if t.len() > 1 {
@@ -443,25 +491,28 @@ fn main() {
                     f.set_op(c.opno);
                 }
                 c.opno += 1;
-                match guard(|| block_on(open_dev(&files, &p))) {
-                    Ok(Ok(d)) => {
-                        writeln!(
-                            out,
+                tick(&c.id, c.opno);
+                match guard(|| run_single(Box::pin(open_dev(&files, &p)), &files)) {
+                    Ok(Err(e)) => {
+                        c.dead = true;
+                        outln!("open {}", e);
+                    }
+                    Ok(Ok(Ok(d))) => {
+                        outln!(
                             "open ok vsize={} cb={} ro={}",
                             d.info.virtual_size(),
                             d.info.cluster_bits(),
                             d.info.refcount_order()
-                        )
-                        .unwrap();
+                        );
                         c.dev = Some(d);
                     }
-                    Ok(Err(e)) => {
+                    Ok(Ok(Err(e))) => {
                         c.dead = true;
-                        writeln!(out, "open err {}", sanitize(&e)).unwrap();
+                        outln!("open err {}", sanitize(&e));
                     }
                     Err(p) => {
                         c.dead = true;
-                        writeln!(out, "open panic {}", p).unwrap();
+                        outln!("open panic {}", p);
                     }
                 }
             }
@@ -507,7 +558,7 @@ fn main() {
                 if fi < c.files.len() {
                     let path = format!("{}/{}.{}.img", outdir, c.id, t[1]);
                     std::fs::write(&path, c.files[fi].snapshot()).unwrap();
-                    writeln!(out, "snap {} {}", t[1], c.files[fi].0.borrow().data.len()).unwrap();
+                    outln!("snap {} {}", t[1], c.files[fi].0.borrow().data.len());
                 }
             }
             "L" => {
@@ -517,7 +568,7 @@ fn main() {
                 if fi < c.files.len() {
                     let path = format!("{}/{}.{}.log", outdir, c.id, t[1]);
                     dump_log(&c.files[fi], &path, payload);
-                    writeln!(out, "log {} {}", t[1], c.files[fi].0.borrow().log.len()).unwrap();
+                    outln!("log {} {}", t[1], c.files[fi].0.borrow().log.len());
                 }
             }
             "reqcount" => {
@@ -527,7 +578,7 @@ fn main() {
                     let inner = f.0.borrow();
                     write!(s, " {}/{}", inner.log.len(), inner.modifying_reqs).unwrap();
                 }
-                writeln!(out, "reqcount{}", s).unwrap();
+                outln!("reqcount{}", s);
             }
             "par" => {
                 // par <seed> <mode> <budget> <k> [sched tokens...]   next k lines are ops
@@ -548,7 +599,7 @@ fn main() {
                     ops.push(parse_op(&tt).expect("op in par"));
                 }
                 if c.dead || c.dev.is_none() {
-                    writeln!(out, "par skipped").unwrap();
+                    outln!("par skipped");
                     continue;
                 }
                 let files = c.files.clone();
@@ -559,6 +610,7 @@ fn main() {
                 let base = c.opno;
                 c.opno += k;
                 let dev = c.dev.as_ref().unwrap();
+                tick(&c.id, base);
                 let mut rng = Rng(seed);
                 let r = guard(|| {
                     let tasks: Vec<Pin<Box<dyn Future<Output = OpOut> + '_>>> =
@@ -580,20 +632,18 @@ fn main() {
                             Outcome::Budget(u) => format!("budget {:?}", u).replace(' ', ""),
                             Outcome::ReplayDiverged(s) => format!("diverged {}", s),
                         };
-                        writeln!(out, "par {} steps={} base={}", oc, er.steps, base).unwrap();
-                        writeln!(out, "sched {}", er.sched.join(" ")).unwrap();
+                        outln!("par {} steps={} base={}", oc, er.steps, base);
+                        outln!("sched {}", er.sched.join(" "));
                         for (i, r) in er.results.iter().enumerate() {
                             match r {
-                                Some(o) => writeln!(
-                                    out,
+                                Some(o) => outln!(
                                     "res {} {} {} {}",
                                     base + i,
                                     er.start_step[i],
                                     er.finish_step[i],
                                     o.line
-                                )
-                                .unwrap(),
-                                None => writeln!(out, "res {} {} - unfinished", base + i, er.start_step[i]).unwrap(),
+                                ),
+                                None => outln!("res {} {} - unfinished", base + i, er.start_step[i]),
                             }
                         }
                         if er.outcome != Outcome::Finished {
@@ -605,7 +655,7 @@ fn main() {
                         }
                     }
                     Err(p) => {
-                        writeln!(out, "par panic {}", p).unwrap();
+                        outln!("par panic {}", p);
                         c.dead = true;
                         if let Some(d) = c.dev.take() {
                             std::mem::forget(d);
@@ -622,17 +672,26 @@ fn main() {
                 let i = c.opno;
                 c.opno += 1;
                 if c.dead || c.dev.is_none() {
-                    writeln!(out, "res {} skipped", i).unwrap();
+                    outln!("res {} skipped", i);
                     continue;
                 }
                 for f in &c.files {
                     f.set_op(i);
                 }
                 let dev = c.dev.as_ref().unwrap();
-                match guard(|| block_on(run_op(dev, &op))) {
-                    Ok(o) => writeln!(out, "res {} {}", i, o.line).unwrap(),
+                tick(&c.id, i);
+                let files = c.files.clone();
+                match guard(|| run_single(Box::pin(run_op(dev, &op)), &files)) {
+                    Ok(Ok(o)) => outln!("res {} {}", i, o.line),
+                    Ok(Err(e)) => {
+                        outln!("res {} {}", i, e);
+                        c.dead = true;
+                        if let Some(d) = c.dev.take() {
+                            std::mem::forget(d);
+                        }
+                    }
                     Err(p) => {
-                        writeln!(out, "res {} panic {}", i, p).unwrap();
+                        outln!("res {} panic {}", i, p);
                         c.dead = true;
                         if let Some(d) = c.dev.take() {
                             std::mem::forget(d);
@@ -641,11 +700,8 @@ fn main() {
                 }
             }
         }
-        if out.len() > 1 << 20 {
-            print!("{}", out);
-            out.clear();
-        }
     }
-    print!("{}", out);
+    *TICK.lock().unwrap() = None;
+    print!("{}", OUT.lock().unwrap());
     let _ = Kind::Read;
 }
